@@ -119,6 +119,19 @@ func child(c *vf.Ctx) {
 				c.FlushStats()
 			}
 		}
+	case "hangdemo": // self-test of the watchdog classification (VERIF_C18_HANGDEMO=1): provoke the Executor.Shutdown lost wake-up, then really block on it
+		for i := 0; ; i++ {
+			sp := genStress(c.Rand(fmt.Sprintf("hang/%d", i)), i)
+			sp.Kind, sp.Workers, sp.Flags = kExec, 4, 0
+			mark(c, fmt.Sprintf("hangdemo run %d", i))
+			r := runRandom(sp)
+			if r.hang {
+				for r.shRet.Load() == 0 { // never returns: wait for the watchdog
+					time.Sleep(50 * time.Millisecond)
+				}
+			}
+			leakedIDs = append(leakedIDs, r.leaked()...)
+		}
 	case "spec": // debugging aid: print the generated specification of random run <index>
 		i, _ := strconv.Atoi(c.ChildArgs[0])
 		b, _ := json.Marshal(genSpec(c.Rand(fmt.Sprintf("run/%d", i)), i))
@@ -278,6 +291,13 @@ func parent(c *vf.Ctx) {
 		replay(c)
 		return
 	}
+	if os.Getenv("VERIF_C18_HANGDEMO") != "" {
+		j := job{"hangdemo", nil, false, 1}
+		handle(c, j, c.RunChild(vf.ChildOpts{Name: "hangdemo", Timeout: 20 * time.Second}))
+		flushObs(c)
+		c.Count("evaluations", 0)
+		return
+	}
 	c.SetRule("a run drives one real timed.Queue / Executor / TaskExecutor: either a scripted gated schedule (re-schedule an identifier while its callback is held at a gate; Cancel(id) while the callback is held; Cancel while a worker is parked in Poll's select holding the element, before and after Shutdown; Cancel of an element in the heap; size bound filled without a poller; every Shutdown flag combination with pending elements) or a seeded random history (1-4 clients x 3-8 operations: Add/ExecuteAt with offsets -5..+40 ms, element Cancel, Cancel(id), gate openings, jitter; 1-4 workers; max size 0/2/5; every flag combination; Shutdown after or concurrent with the clients). evaluations = scheduled elements whose whole life was checked at structural quiescence; distinct_nontrivial = distinct (scenario, kind, workers, max size, flags, clients, shutdown mode, observed windows) of runs in which at least one element was delivered or prevented")
 	scripts := len(scriptList())
 	nPlain := c.Pick(2400, 32000)
@@ -358,8 +378,17 @@ func replay(c *vf.Ctx) {
 	}
 	b, _ := json.Marshal(h.Spec)
 	reps := 3
-	if h.Spec.Script == "" {
-		reps = 40 // free-running history: the schedule is re-sampled
+	if h.Spec.Script == "" { // free-running history: the schedule is re-sampled, so repeat (more often when no run has to wait for a timer)
+		reps = 60
+		var maxOff int64
+		for _, ops := range h.Spec.Clients {
+			for _, op := range ops {
+				maxOff = max(maxOff, op.OffUs)
+			}
+		}
+		if maxOff <= 1000 {
+			reps = 5000
+		}
 	}
 	for _, race := range []bool{h.Race, !h.Race} {
 		j := job{"one", []string{strconv.Itoa(reps)}, race, reps}
